@@ -894,8 +894,9 @@ fn combo(case: u64, cfg: &Cfg, big: bool) -> (SchemeType, usize, usize, usize, b
     (scheme, n, kd, np, flat)
 }
 
-fn protocol_case(cfg: &Cfg, grp: &str, case: u64, rng: &mut Rng, rep: &mut Report, big: bool) {
+fn protocol_case(cfg: &Cfg, grp: &str, case: u64, rng: &mut Rng, rep: &mut Report, big: bool, np_override: Option<usize>) {
     let (scheme, n, kd, np, flat) = combo(case, cfg, big);
+    let np = np_override.unwrap_or(np);
     let su = match make_setup(rng, scheme, n, kd, np, flat) { Ok(s) => s, Err(e) => { rep.count("generator", "rejected"); rep.note(&format!("setup rejected: {}", short(&e))); return; } };
     rep.count("generator", "context_ok");
     rep.count("params", &format!("{}|N={}|data_primes={}|special_prime={}", su.spec.scheme_name(), n, su.data_qs.len(), !flat));
@@ -1062,15 +1063,18 @@ fn refusal_case(cfg: &Cfg, grp: &str, case: u64, rng: &mut Rng, rep: &mut Report
 pub fn run(cfg: &Cfg, rep: &mut Report) -> PropMeta {
     // 3 schemes x (3|5) party counts x 2 degrees x 3 prime counts, every 4th cycle without special prime
     let cycle = 3 * (cfg.pick(4, 6) - 1) * 2 * 3;
-    run_cases(cfg, "protocols", (cycle * cfg.n(16, 16)) as u64, rep, |i, rng, rep| protocol_case(cfg, "protocols", i, rng, rep, false));
+    run_cases(cfg, "protocols", (cycle * cfg.n(16, 16)) as u64, rep, |i, rng, rep| protocol_case(cfg, "protocols", i, rng, rep, false, None));
     if !cfg.quick() {
         let cycle_big = 3 * 5 * 3 * 3;
-        run_cases(cfg, "protocols_big", cfg.n(1, cycle_big) as u64, rep, |i, rng, rep| protocol_case(cfg, "protocols_big", i, rng, rep, true));
+        run_cases(cfg, "protocols_big", cfg.n(1, cycle_big) as u64, rep, |i, rng, rep| protocol_case(cfg, "protocols_big", i, rng, rep, true, None));
     }
+    // more parties than the cycle above reaches (quick: 5..6, thorough: 5..8), delivery orders sampled: aggregation code that
+    // batches or blocks the parties' shares only differs from the small-group behaviour up there
+    run_cases(cfg, "protocols_many_parties", cfg.pick(6, 24), rep, |i, rng, rep| protocol_case(cfg, "protocols_many_parties", i, rng, rep, false, Some(5 + ((i / 3) % cfg.pick(2, 4)) as usize)));
     run_cases(cfg, "refusal", (cycle * cfg.n(4, 4)) as u64, rep, |i, rng, rep| refusal_case(cfg, "refusal", i, rng, rep));
     PropMeta {
         id: "C18", level: "exploration",
-        rule: "group protocols: every (scheme BFV/BGV/CKKS, parties 2..4 quick / 2..6 thorough, N 16/64 [thorough also 256/1024/4096], 2..4 data primes of 50-59 bits + 60-bit special prime, every 4th cycle without special prime) runs public-key generation, secret-key revelation, two-round relinearisation-key generation, collective decryption of a fresh / a mod-switched / a relinearised product ciphertext, secret-key switching to fresh shares, public-key switching, cipher->shares and shares->cipher; the whole run is repeated with identical tape and entropy seeds under every history. Histories for n<=4: all pairs (a,b) of indices into the (n-1)! orders, receiver r using order a+r+stage in round 1 and b+r+stage in round 2, i.e. every receiver sees every order in every round and the two-round protocol every pair (N>256: a=b); n=5,6: ascending order + 7 (N>256: 3) random histories. group refusal: for every protocol, receiver and non-empty subset (n<=4: all; n=5,6: all-missing, one-missing, 4 random) of withheld messages the receiver's finish/step2 must panic. distinct = distinct (stage, scheme, parties, N, prime family) and (protocol, scheme, parties, #missing) tuples",
+        rule: "group protocols: every (scheme BFV/BGV/CKKS, parties 2..4 quick / 2..6 thorough (plus a group with 5..6 / 5..8 parties and sampled delivery orders), N 16/64 [thorough also 256/1024/4096], 2..4 data primes of 50-59 bits + 60-bit special prime, every 4th cycle without special prime) runs public-key generation, secret-key revelation, two-round relinearisation-key generation, collective decryption of a fresh / a mod-switched / a relinearised product ciphertext, secret-key switching to fresh shares, public-key switching, cipher->shares and shares->cipher; the whole run is repeated with identical tape and entropy seeds under every history. Histories for n<=4: all pairs (a,b) of indices into the (n-1)! orders, receiver r using order a+r+stage in round 1 and b+r+stage in round 2, i.e. every receiver sees every order in every round and the two-round protocol every pair (N>256: a=b); n=5,6: ascending order + 7 (N>256: 3) random histories. group refusal: for every protocol, receiver and non-empty subset (n<=4: all; n=5,6: all-missing, one-missing, 4 random) of withheld messages the receiver's finish/step2 must panic. distinct = distinct (stage, scheme, parties, N, prime family) and (protocol, scheme, parties, #missing) tuples",
         assumptions: vec![
             "noise precondition: data modulus >= 2^98 (2-4 primes of 50-59 bits), t <= 2^17, N <= 4096, n <= 6; exact equality (BFV, BGV) is asserted only when t*E*8 < Q_level with the worst-case coefficient noise E: fresh 21(2Nn+1)+(Nn+1)/2+1, +21n per collective step, +21n(2N+1) for public-key switching, BFV product 4tN(Nn+2)(B+1)+k*N*(qmax/P)*(2Nn^2*21+42n)+Nn+2, BGV product N*t*(B+1)^2+same; all generated sets satisfy it (out_of_precondition counts the exceptions)".into(),
             "CKKS: slot error <= N*(E+1)/scale + double-precision tolerance (he::ckks_fp_tolerance), scale = 2^floor((log2 Q - log2 N - 8)/2) <= 2^50".into(),
